@@ -9,7 +9,13 @@ ESCAPE  S = characters Parser::consume_term treats specially in any mode, E = ch
 SPLICE  replace / replace_with / replace_all / replace_all_with copy the unmatched text exactly: the haystack is
         only sliced as text[last_end .. m.start()] inside the loop (text[.. m.start()] for the single forms) and
         text[last_end ..] (text[m.end() ..]) after it, with last_end <- m.end() as the only update, in that order,
-        and the inserted piece goes between them.
+        and the inserted piece goes between them; inside the loop over matches no path from one iteration to the
+        next avoids the gap copy, the insertion or the cursor update (no match is skipped).
+SCANNER the `$` template scanner (expand_replacement) walks a Peekable<Chars>. A character taken with `next()` and
+        thrown away must have been recognised first: the discarding call is dominated by the *recognising* edge of
+        a test on the peeked character (the `'$'` / `'{'` value edge of a match on `*peek()`, or the true edge of a
+        `char::is_*` predicate / `==` on it). A discarding `next()` on a default/else edge swallows an ordinary
+        template character (`"US$ $1"` loses the blank).
 """
 import re
 
@@ -291,6 +297,35 @@ def check_splice(facts):
                     probs.append("unmatched text is not pushed")
                 if not exp and len(pushes) < 3:
                     probs.append("nothing is inserted between the gap and the cursor update")
+            # every match is replaced: inside the loop over matches no path from one iteration to the next avoids the gap copy,
+            # the insertion or the cursor update
+            if pre and len(pre) == 1 and sorted(k[0] for k in kinds) == ["const", "end"]:
+                from .lbseq import natural_loops
+                endb = [k for k in kinds if k[0] == "end"][0][2]
+                loops = [(h, ns) for h, ns in natural_loops(b).items() if pre[0][0] in ns and endb in ns]
+                if not loops:
+                    probs.append("the gap copy and the cursor update are not inside one loop over the matches")
+                else:
+                    h, ns = min(loops, key=lambda x: len(x[1]))
+                    succ = b.succ()
+                    musts = [("the copy of the unmatched gap", pre[0][0]), ("the cursor update last_end = m.end()", endb)]
+                    insb = (exp or ins)
+                    if insb:
+                        musts.append(("the insertion of the replacement", insb[0]))
+                    for what, blk in musts:
+                        seen, stack, skipped = set(), [x for x in succ.get(h, []) if x in ns], False
+                        while stack:
+                            x = stack.pop()
+                            if x in seen or x == blk or x not in ns:
+                                continue
+                            if x == h:
+                                skipped = True
+                                break
+                            seen.add(x)
+                            stack.extend(succ.get(x, []))
+                        if skipped:
+                            probs.append("an iteration of the loop over matches can reach the next one without %s (a `continue`/early exit "
+                                         "skips a match: it is left unreplaced)" % what)
             # the only value returned is `result`, after the tail was pushed
             res_l = names.get("result")
             rets = [(bi, i, s) for bi, i, s in b.iter_stmts() if s["k"] == "assign" and s["pl"]["l"] == 0 and not s["pl"]["p"]]
@@ -321,4 +356,99 @@ def check_splice(facts):
         else:
             r.ok(key, "head/gap, insertion, tail in order; cursor only moves to m.end()")
             r.sample({"function": fn, "slices": [(s[1], {k: str(v) for k, v in s[2].items()}) for s in sl]})
+    return r
+
+
+# ---- SCANNER --------------------------------------------------------------------------------
+
+def _reads_of(b, l):
+    import json as _j
+    pat = re.compile(r'"l": %d[,}]' % l)
+    n = 0
+    for bi in b.reachable():
+        blk = b.blocks[bi]
+        for st in blk["s"]:
+            if st["k"] in ("dead", "live"):
+                continue
+            txt = _j.dumps(st.get("rv")) if st["k"] == "assign" else _j.dumps(st)
+            n += len(pat.findall(txt))
+        t = dict(blk["t"])
+        t.pop("dest", None)
+        if t.get("k") == "drop":
+            continue
+        n += len(pat.findall(_j.dumps(t)))
+    return n
+
+
+def _from_peek(b, l, seen=None):
+    seen = seen if seen is not None else set()
+    if l in seen or (1 <= l <= b.argc):
+        return False
+    seen.add(l)
+    for bi, si, kind, pay in b.defs().get(l, []):
+        if kind == "call":
+            cal = pay.get("callee") or ""
+            if cal.endswith("::peek"):
+                return True
+            if "char::methods" in cal or cal.endswith("PartialEq::eq"):
+                if any(a.get("k") in ("copy", "move") and _from_peek(b, a["pl"]["l"], seen) for a in pay["args"]):
+                    return True
+            continue
+        rv = pay["rv"]
+        ops = []
+        for k in ("op", "a", "b"):
+            if isinstance(rv.get(k), dict):
+                ops.append(rv[k])
+        if rv["k"] in ("ref", "discr", "copy_for_deref") and "pl" in rv:
+            ops.append({"k": "copy", "pl": rv["pl"]})
+        for o in ops:
+            if o.get("k") in ("copy", "move") and _from_peek(b, o["pl"]["l"], seen):
+                return True
+    return False
+
+
+def check_scanner(facts):
+    r = RuleResult("SCANNER", _text("SCANNER"))
+    fn = "api::Regex::expand_replacement"
+    if not facts.has_body(fn):
+        r.error("anchor %s not found" % fn)
+        return r
+    b = facts.body(fn)
+    dom = b.dom()
+    nd = 0
+    npeek = len([1 for bb, t in b.iter_calls() if (t.get("callee") or "").endswith("::peek")])
+    for bb, t in b.iter_calls():
+        cal = t.get("callee") or ""
+        rc = t.get("resolved") or t.get("fn_resolved") or ""
+        if not cal.endswith("Iterator::next"):
+            continue
+        if _reads_of(b, t["dest"]["l"]) > 0:
+            continue  # the character is used (pushed / inspected)
+        nd += 1
+        key = "%s discarding next() #%d" % (fn, nd)
+        ok = None
+        for s in dom[bb]:
+            ts = b.blocks[s]["t"]
+            if ts["k"] != "switch" or ts["discr"].get("k") not in ("copy", "move"):
+                continue
+            if not _from_peek(b, ts["discr"]["pl"]["l"]):
+                continue
+            if ts.get("dty") == "bool":
+                edges = [ts["otherwise"]]
+            elif ts.get("dty") in ("isize", "usize") or "Option" in str(ts.get("dty")):
+                continue  # Some/None test of the peek itself recognises nothing
+            else:
+                edges = [tg for v, tg in ts["targets"]]
+            for e in edges:
+                if e == bb or e in dom[bb]:
+                    ok = ts.get("line")
+        if ok is not None:
+            r.ok(key, "recognised at line %s" % ok)
+            r.sample({"function": fn, "discard_line": t.get("line"), "recognised_by_test_at_line": ok})
+        else:
+            r.fail(key, "the template character consumed at line %s is thrown away without having been recognised by a test on the peeked "
+                        "character (it sits on a default/else edge): an ordinary character after `$` is swallowed" % t.get("line"),
+                   facts.loc(fn, t.get("line")))
+    r.floor("discarding_next_calls", nd, 3)
+    r.floor("peek_calls", npeek, 2)
     return r
